@@ -102,6 +102,7 @@ public:
 
   Iterator find(const T& key) const
   {
+    Item* result = 0;
     for(Item* item = root; item; )
     {
       if(key > item->key)
@@ -115,8 +116,14 @@ public:
         continue;
       }
       else
-        return item;
+      { // remember the match and look for an earlier entry with the same key
+        result = item;
+        item = item->left;
+        continue;
+      }
     }
+    if(result)
+      return result;
     return _end;
   }
 
